@@ -146,9 +146,9 @@ func funcKey(fn *ssa.Function) string {
 	}
 	pkg := ""
 	if fn.Pkg != nil {
-		pkg = shortPkg(fn.Pkg.Pkg.Path())
+		pkg = fn.Pkg.Pkg.Name()
 	} else if fn.Object() != nil && fn.Object().Pkg() != nil {
-		pkg = shortPkg(fn.Object().Pkg().Path())
+		pkg = fn.Object().Pkg().Name()
 	}
 	if recv := fn.Signature.Recv(); recv != nil {
 		t := recv.Type()
@@ -161,7 +161,7 @@ func funcKey(fn *ssa.Function) string {
 		if n, ok := t.(*types.Named); ok {
 			tn = n.Obj().Name()
 			if n.Obj().Pkg() != nil {
-				pkg = shortPkg(n.Obj().Pkg().Path())
+				pkg = n.Obj().Pkg().Name()
 			}
 		}
 		if ptr {
@@ -177,7 +177,7 @@ func calleeKeyOfMethod(m *types.Func) string {
 	sig := m.Type().(*types.Signature)
 	pkg := ""
 	if m.Pkg() != nil {
-		pkg = shortPkg(m.Pkg().Path())
+		pkg = m.Pkg().Name()
 	}
 	if recv := sig.Recv(); recv != nil {
 		t := recv.Type()
@@ -188,7 +188,7 @@ func calleeKeyOfMethod(m *types.Func) string {
 		}
 		if n, ok := t.(*types.Named); ok {
 			if n.Obj().Pkg() != nil {
-				pkg = shortPkg(n.Obj().Pkg().Path())
+				pkg = n.Obj().Pkg().Name()
 			}
 			if ptr {
 				return fmt.Sprintf("%s.(*%s).%s", pkg, n.Obj().Name(), m.Name())
